@@ -29,7 +29,7 @@
    up to the next primitive (that is exactly one controller decision):
      PIdle    'call'   harness gate at the start of every API call; the step
                        runs the call's prologue: filelock.py l.135-143 for
-                       acquire; l.222-229 + 275 for release (is_locked check,
+                       acquire; l.222-229 + 281 for release (is_locked check,
                        depth, counter-1, fd:=None)
      PTLAcq   l.144    _thread_lock.acquire(blocking, timeout), then l.148-153
                        (counter+1, is_locked early return, start_time)
@@ -46,7 +46,7 @@
      PUnlock  l.284    fcntl.flock(UN)
      PCloseR  l.286    os.close, then l.236-242 (counter := 0 in `finally`)
      PTLRel   l.244    _thread_lock.release(), max(1,depth) times; a
-                       RuntimeError ends the loop (l.245)
+                       RuntimeError ends the loop (l.247)
    acquire_ctx / with-statement = the same acquire with a TimeoutError instead
    of False (l.199-200, l.310-311); their exit is release().              *)
 From Coq Require Import List Arith Bool NArith.
